@@ -47,7 +47,7 @@ from symtorch.explore import _to_float, prove
 from vlib.core import main_for, pmap
 
 PID = 'C14'
-CHECK_BACK_TO_BACK = True  # also examine a second request issued WITHOUT any parameter-changed event in between
+CHECK_BACK_TO_BACK = False  # caching until a change event is the CallableModel contract (the optimiser relies on it); only requests separated by an event are examined
 C_LOG_SQRT_2PI = math.log(math.sqrt(2 * math.pi))  # the float constant in torch Normal.log_prob
 C_HALF_LOG_2PI = 0.5 * math.log(2 * math.pi)  # the float constant in torch Normal.entropy
 
